@@ -39,7 +39,8 @@ type sItem struct {
 	Res   string   `json:"res,omitempty"`  // enabled resume attr: "true" "false" "" "garbage"
 	Cond  string   `json:"cond,omitempty"` // failed / serr condition
 	H     int      `json:"h,omitempty"`
-	N     int      `json:"n,omitempty"` // message/presence/iq stanza id for post-session traffic
+	N     int      `json:"n,omitempty"`  // message/presence/iq stanza id for post-session traffic
+	NS    string   `json:"ns,omitempty"` // iq: written in this namespace instead of the stream's default one (an element that is merely CALLED iq)
 }
 
 func attrEsc(s string) string {
@@ -93,7 +94,11 @@ func (it sItem) xml() string {
 		return "<failure xmlns='urn:ietf:params:xml:ns:xmpp-sasl'><not-authorized/></failure>"
 	case "iq":
 		var b strings.Builder
-		fmt.Fprintf(&b, "<iq type='%s' id='%s'>", it.Typ, it.ID)
+		if it.NS != "" {
+			fmt.Fprintf(&b, "<iq xmlns='%s' type='%s' id='%s'>", attrEsc(it.NS), it.Typ, it.ID)
+		} else {
+			fmt.Fprintf(&b, "<iq type='%s' id='%s'>", it.Typ, it.ID)
+		}
 		switch it.Pl {
 		case "bind":
 			if it.Jid != "" {
@@ -191,6 +196,7 @@ type connScript struct {
 type connLog struct {
 	Elems    []cElem `json:"elems"`
 	TLS      string  `json:"tls,omitempty"` // "", "ok", "handshake-error"
+	TLSErr   string  `json:"tls_err,omitempty"` // handshake-error: what the server's side of the handshake reported
 	ClearBy  []byte  `json:"-"`             // every byte received outside TLS
 	RawBy    []byte  `json:"-"`             // after <proceed/>: every byte read from the socket underneath TLS (handshake included)
 	SecureBy []byte  `json:"-"`             // after <proceed/>: every byte of the decrypted stream
@@ -535,10 +541,12 @@ func (s *scriptedServer) serve(conn net.Conn, sc connScript, lg *connLog) {
 			if it.T == "proceed" {
 				cfg := serverTLSConfig(sc.Cert)
 				tc := tls.Server(sinkConn{conn, &lg.RawBy, &s.mu}, cfg)
-				tc.SetDeadline(time.Now().Add(5 * time.Second))
+				// generous: a client that is still working on the handshake on a loaded machine is not to be timed out
+				tc.SetDeadline(time.Now().Add(30 * time.Second))
 				if err := tc.Handshake(); err != nil {
 					s.mu.Lock()
 					lg.TLS = "handshake-error"
+					lg.TLSErr = err.Error()
 					s.mu.Unlock()
 					if sc.LingerMs > 0 {
 						conn.SetReadDeadline(time.Now().Add(time.Duration(sc.LingerMs) * time.Millisecond))
@@ -614,7 +622,7 @@ func (s *scriptedServer) snapshot() []connLog {
 	defer s.mu.Unlock()
 	out := make([]connLog, len(s.logs))
 	for i, l := range s.logs {
-		out[i] = connLog{Elems: append([]cElem{}, l.Elems...), TLS: l.TLS, Ended: l.Ended, ClearBy: append([]byte{}, l.ClearBy...),
+		out[i] = connLog{Elems: append([]cElem{}, l.Elems...), TLS: l.TLS, TLSErr: l.TLSErr, Ended: l.Ended, ClearBy: append([]byte{}, l.ClearBy...),
 			RawBy: append([]byte{}, l.RawBy...), SecureBy: append([]byte{}, l.SecureBy...)}
 	}
 	return out
